@@ -27,6 +27,25 @@ STRENGTHENED = {  # seed -> rule added or tightened after the seed was first mis
  'C18-5': "C18.R4 regex syntax tree of the '#' index (new)", 'C18-6': 'C18.R5 multicast first byte (new)',
  'C19-4': 'C19.R1 setattr on live objects is a sink (new)', 'C20-5': 'C20.R4 re-insertion unless vanished (new)',
  'C20-6': 'C20.R4 psutil accesses covered (new)',
+ # third round (one plain slip + one defect hidden in a refactoring per property): first missed, see DESIGN 11
+ 'C03-7': 'application strategy copied before the program rules are loaded (shared C03.R5 / C06.R2, new)',
+ 'C03-8': 'C03.R6 process_failure under EXACTLY the lost-instance fact',
+ 'C05-8': 'C05.R3 every call site of conciliate_conflicts in a Master-only half (was an analysis error)',
+ 'C06-7': 'C06.R2 inherited _master_next called first on every path (new)',
+ 'C07-7': 'C07.R7 on_instance_failure under exactly has_active_state() + its definition (new)',
+ 'C07-8': 'C07.R7 every proxied send covered by the SupervisorProxyException handler',
+ 'C08-7': 'C08.R7 Master forgotten when it leaves RUNNING (C01.R3 shared)',
+ 'C08-8': 'C08.R7 broken ServerProxy always dropped (shared, new)',
+ 'C09-7': 'C09.R4 RESTARTING / SHUTTING_DOWN accepted by the table from every state the RPC accepts (new)',
+ 'C10-8': 'C10.R4 modes of a lost peer forgotten for STOPPED and ISOLATED (shared, new)',
+ 'C11-7': 'C11.R2 synthetic payload of a lost instance (FATAL, unexpected, reason) (new)',
+ 'C12-7': 'C12.R1 forced payload rewritten on a copy (C10.R3 shared)',
+ 'C13-7': 'C13.R4 snapshot transferred exactly when AUTHORIZED (C12.R3 shared)',
+ 'C14-7': 'C14.R4 on_command_added candidates = get_process_identifiers(command.process)',
+ 'C15-7': 'C15.R4 exactly one positional argument (new)',
+ 'C16-8': 'C16.R4 typed-AST access check (C15.R1 shared)',
+ 'C17-8': 'C17.R2 enum lookups cannot fail with a bare KeyError / ValueError (new)',
+ 'C18-8': 'C18.R5 interval / NaN analysis follows the helper the converter applies',
 }
 confirm = {}
 for f in sorted(SRC.glob('confirm*.json')):
